@@ -29,6 +29,7 @@
 #include "dfs_filesystem.h"    // for FileSystem
 #include "dfstypes.h"          // for sector_count_type, byte
 #include "driveselector.h"     // for drive_number, operator<<, SurfaceSelector
+#include "verif_trace.h"
 
 using std::vector;
 
@@ -86,6 +87,9 @@ namespace
     virtual std::optional<DFS::SectorBuffer> read_block(unsigned long sector) override
     {
       DFS::SectorBuffer buf;
+      VERIF_ONLY(const bool verif_hit = cache_.get(sector, &buf);)
+      VERIF_EVENT("{\"e\":\"cread\",\"dev\":%d,\"sector\":%lu,\"hit\":%d,\"sum\":%ld}", verif::id_of(this), sector, verif_hit ? 1 : 0,
+		  verif_hit ? long(verif::sum(buf.begin(), buf.end())) : -1l);
       if (cache_.get(sector, &buf))
 	{
 	  return buf;
@@ -95,6 +99,8 @@ namespace
 	{
 	  cache_.put(sector, &*b);
 	}
+      if (b && cache_.has(sector))
+	VERIF_EVENT("{\"e\":\"cfill\",\"dev\":%d,\"sector\":%lu,\"sum\":%lu}", verif::id_of(this), sector, verif::sum(b->begin(), b->end()));
       return b;
     }
 
